@@ -47,6 +47,7 @@ type Spec struct {
 	ID             string              `json:"id"`
 	Package        string              `json:"package"` // import path relative to module, e.g. common/intconv
 	ExtraPackages  []string            `json:"extra_packages"`
+	HarnessPkgs    []string            `json:"harness_packages"` // additional packages (relative) that contain VH_ functions
 	HarnessFiles   []string            `json:"harness_files"` // relative to /verif/harness
 	Functions      []string            `json:"functions_encoded"`
 	Assumptions    []string            `json:"assumptions"`
@@ -107,6 +108,8 @@ type loaded struct {
 	prog     *ssa.Program
 	pkg      *ssa.Package
 	all      []*ssa.Package
+	hpkgs    []*ssa.Package          // packages holding harness functions
+	hpkgOf   map[string]*ssa.Package // harness name -> package
 	loadTime time.Duration
 }
 
@@ -123,6 +126,9 @@ func load(spec *Spec) (*loaded, error) {
 		Overlay: ov,
 	}
 	pats := []string{modPath + "/" + spec.Package}
+	for _, p := range spec.HarnessPkgs {
+		pats = append(pats, modPath+"/"+p)
+	}
 	for _, p := range spec.ExtraPackages {
 		pats = append(pats, p)
 	}
@@ -148,6 +154,11 @@ func load(spec *Spec) (*loaded, error) {
 	for i, p := range pkgs {
 		if p.PkgPath == modPath+"/"+spec.Package {
 			l.pkg = spkgs[i]
+		}
+		for _, hp := range append([]string{spec.Package}, spec.HarnessPkgs...) {
+			if p.PkgPath == modPath+"/"+hp {
+				l.hpkgs = append(l.hpkgs, spkgs[i])
+			}
 		}
 	}
 	l.all = prog.AllPackages()
@@ -333,21 +344,24 @@ func cmdCheck(args []string) int {
 		want[h] = true
 	}
 	var names []string
-	for name, mem := range ld.pkg.Members {
-		if f, ok := mem.(*ssa.Function); ok && strings.HasPrefix(name, "VH_"+id+"_") {
-			if len(want) > 0 && !want[name] {
-				continue
+	ld.hpkgOf = map[string]*ssa.Package{}
+	for _, hp := range ld.hpkgs {
+		for name, mem := range hp.Members {
+			if _, ok := mem.(*ssa.Function); ok && strings.HasPrefix(name, "VH_"+id+"_") {
+				if len(want) > 0 && !want[name] {
+					continue
+				}
+				if *only != "" && name != *only {
+					continue
+				}
+				names = append(names, name)
+				ld.hpkgOf[name] = hp
 			}
-			if *only != "" && name != *only {
-				continue
-			}
-			_ = f
-			names = append(names, name)
 		}
 	}
 	sort.Strings(names)
 	for _, n := range names {
-		hs = append(hs, ld.pkg.Func(n))
+		hs = append(hs, ld.hpkgOf[n].Func(n))
 	}
 	if len(hs) == 0 {
 		fmt.Printf("INCONCLUSIVE: property=%s no harness functions found\n", id)
@@ -417,7 +431,7 @@ func cmdCheck(args []string) int {
 			validated++
 			if kf := matchKnown(known, id, key); kf != nil {
 				if !seen[kf.Key] {
-					fmt.Printf("KNOWN-FINDING: property=%s %s\n", id, kf.Text)
+					fmt.Printf("KNOWN-FINDING: %s\n", kf.Text)
 					seen[kf.Key] = true
 				}
 				continue
@@ -490,7 +504,12 @@ func writeReplayDir(spec *Spec, ld *loaded, harness string, dir string, vectors 
 		}
 		vecPaths = append(vecPaths, p)
 	}
-	pkgName := ld.pkg.Pkg.Name()
+	hp := ld.hpkgOf[harness]
+	if hp == nil {
+		hp = ld.pkg
+	}
+	pkgName := hp.Pkg.Name()
+	pkgRel := strings.TrimPrefix(hp.Pkg.Path(), modPath+"/")
 	var sb strings.Builder
 	fmt.Fprintf(&sb, "package %s\n\nimport (\n\t\"fmt\"\n\t\"os\"\n\t\"strings\"\n\t\"testing\"\n\n\t\"%s/zzverif/sym\"\n)\n\n", pkgName, modPath)
 	fmt.Fprintf(&sb, "func TestVerifReplay(t *testing.T) {\n\tfor i, p := range strings.Split(os.Getenv(\"VERIF_VECTORS\"), \":\") {\n\t\tif p == \"\" {\n\t\t\tcontinue\n\t\t}\n")
@@ -504,13 +523,13 @@ func writeReplayDir(spec *Spec, ld *loaded, harness string, dir string, vectors 
 	if err != nil {
 		return "", err
 	}
-	paths[filepath.Join(repoDir, spec.Package, "zz_verif_replay_test.go")] = testPath
+	paths[filepath.Join(repoDir, pkgRel, "zz_verif_replay_test.go")] = testPath
 	ovb, _ := json.MarshalIndent(map[string]interface{}{"Replace": paths}, "", " ")
 	ovPath := filepath.Join(dir, "overlay.json")
 	if err := os.WriteFile(ovPath, ovb, 0o644); err != nil {
 		return "", err
 	}
-	meta := map[string]interface{}{"property": spec.ID, "harness": harness, "package": spec.Package, "vectors": vecPaths}
+	meta := map[string]interface{}{"property": spec.ID, "harness": harness, "package": pkgRel, "vectors": vecPaths}
 	mb, _ := json.MarshalIndent(meta, "", " ")
 	os.WriteFile(filepath.Join(dir, "replay.json"), mb, 0o644)
 	return strings.Join(vecPaths, ":"), nil
@@ -557,7 +576,7 @@ func replayViolation(spec *Spec, ld *loaded, harness string, v interp.Violation,
 	}
 	b, _ := json.MarshalIndent(v, "", " ")
 	os.WriteFile(filepath.Join(dir, "violation.json"), b, 0o644)
-	out, _ := runNative(dir, spec.Package, vecs)
+	out, _ := runNative(dir, harnessPkgRel(ld, harness, spec), vecs)
 	res, _ := parseNative(out)
 	if r, ok := res[0]; ok {
 		return r
@@ -619,7 +638,7 @@ func selftest(spec *Spec, ld *loaded, envv *interp.Env, h *ssa.Function, k int, 
 	if err != nil {
 		return 0, []string{err.Error()}
 	}
-	out, _ := runNative(dir, spec.Package, vecs)
+	out, _ := runNative(dir, harnessPkgRel(ld, h.Name(), spec), vecs)
 	nres, nobs := parseNative(out)
 	agree := 0
 	var bad []string
@@ -758,3 +777,10 @@ func writeEvidence(spec *Spec, tier string, seed int64, results []*interp.Harnes
 }
 
 func round(f float64) float64 { return float64(int64(f*100)) / 100 }
+
+func harnessPkgRel(ld *loaded, harness string, spec *Spec) string {
+	if hp := ld.hpkgOf[harness]; hp != nil {
+		return strings.TrimPrefix(hp.Pkg.Path(), modPath+"/")
+	}
+	return spec.Package
+}
